@@ -575,7 +575,8 @@ pub fn run_guard_scripts(prop: &str, p: &Params, n: u64) -> Outcome {
                     2 => "guard_scripts_next_and_writer_queued",
                     3 => "guard_scripts_two_queued_setters",
                     4 => "guard_scripts_queued_next_now",
-                    _ => "guard_scripts_subscribe_under_guard",
+                    5 => "guard_scripts_subscribe_under_guard",
+                    _ => "guard_scripts_woken_but_never_polled_again_owners_dropped_first",
                 });
                 out.ev.nontrivial(hash_of(&log));
                 if out.ev.samples.len() < 2 {
@@ -675,7 +676,53 @@ fn guard_script(rng: &mut Rng, log: &mut Vec<String>) -> Result<u8, String> {
             }
         }
     }
-    let script = rng.below(6) as u8;
+    let script = rng.below(7) as u8;
+    if script == 6 {
+        // ---- subscribers are polled while a write guard is held (their lock futures queue up behind it), the guard
+        // is released (they are woken) - and then nobody polls them again: every owner goes away first, the
+        // subscribers afterwards, some of them polled once more, some not. Nothing to compare except that the woken
+        // ones were woken; the point is the order in which the queued lock futures and the lock they queue on are
+        // released (memory verdict from the ASan / Miri passes over these scripts, drop accounting natively).
+        let mut g = bo(ob.write())?;
+        log.push("write guard acquired".into());
+        let mut flags = vec![];
+        for i in 0..k {
+            let (r, f) = poll_sub(&mut subs[i], rng.below(3));
+            log.push(format!("poll s{i} while the write guard is held -> {r:?}"));
+            if r.is_ready() {
+                return Err(format!("[C04|C16] s{i} answered {r:?} while a write guard is held"));
+            }
+            flags.push(f);
+        }
+        if rng.chance(1, 2) {
+            let v = gen_val(rng);
+            let _ = ObservableWriteGuard::set(&mut g, Hk::new(v));
+            log.push(format!("guard.set({v:?})"));
+        }
+        drop(g);
+        log.push("write guard dropped".into());
+        for (i, f) in flags.iter().enumerate() {
+            if !f.woken() {
+                return Err(format!("[C02|C16] s{i} was polled while a write guard was held and not woken when the guard was dropped"));
+            }
+        }
+        drop(ob);
+        drop(ob2);
+        log.push("every owner dropped (subscribers woken but not polled again)".into());
+        while !subs.is_empty() {
+            let mut s = subs.swap_remove(rng.below(subs.len()));
+            if rng.chance(1, 3) {
+                let (r, _f) = poll_sub(&mut s, 0);
+                log.push(format!("a subscriber is polled once more -> {r:?}"));
+                if r != Poll::Ready(None) {
+                    return Err(format!("[C03|C16] every owner is gone but a subscriber answers {r:?}"));
+                }
+            }
+            drop(s);
+        }
+        log.push("subscribers dropped".into());
+        return Ok(6);
+    }
     if script == 5 {
         // ---- subscribe() started while a write guard is held: the new subscriber starts from the version
         // current when the call completes, so without a later update its first poll is Pending
